@@ -423,7 +423,7 @@ func init() {
 			if s := structOf(pt.Elem()); s != nil {
 				for i := 0; i < s.NumFields(); i++ {
 					if s.Field(i).Name() == "v" {
-						p.addTypeNames(ms, s.Field(i).Type(), fmt.Sprintf("F|%s|%d", typeKey(pt.Elem()), i), 0)
+						p.addTypeNames(ms, s.Field(i).Type(), fmt.Sprintf("F|%s|%d", structMemKey(pt.Elem()), i), 0)
 					}
 				}
 			}
